@@ -34,6 +34,10 @@ type c12Ans struct {
 	Proposal refbmc.Suite
 	Answer   refbmc.Suite
 	Follow   bool // the BMC also switches its session to the answered suite
+	// List, when non-empty, is the caller's explicit preference list (indices
+	// into the nine AES suites); the proposal is then its first entry, found by
+	// discovery against a BMC advertising everything
+	List []int
 }
 
 type c12Batch struct {
@@ -86,6 +90,7 @@ func c12Gen(tier string, seed int64) []ev.Case {
 	for from := 0; from < nl; from += 8 {
 		cs = append(cs, ev.MkCase("batch", c12Batch{Kind: "sel", From: from, To: from + 8, Seed: seed}))
 	}
+	cs = append(cs, ev.MkCase("batch", c12Batch{Kind: "ans-list", Seed: seed}))
 	for _, p := range []refbmc.Suite{c12U[0], c12U[1], c12U[4]} {
 		cs = append(cs, ev.MkCase("batch", c12Batch{Kind: "ans-axes", Proposal: p, Seed: seed}))
 		if tier == "thorough" {
@@ -120,6 +125,27 @@ func c12Exec(run *ev.Run, c ev.Case) {
 			for i := b.From; i < b.To && i < len(lists); i++ {
 				for adv := 0; adv < 64; adv++ {
 					c12Select(run, c12Sel{Prefs: lists[i], Advertised: adv, Shuffle: int(b.Seed) + i + adv})
+				}
+			}
+		case "ans-list":
+			// every ordered pair and some triples of the nine AES suites as the caller's list;
+			// the BMC answers with each listed suite and with unlisted ones
+			all := stdSuites()
+			for i := 0; i < 9; i++ {
+				for j := 0; j < 9; j++ {
+					if i == j {
+						continue
+					}
+					k := (i + j*2 + 1) % 9
+					lists := [][]int{{i, j}}
+					if k != i && k != j {
+						lists = append(lists, []int{i, j, k})
+					}
+					for _, l := range lists {
+						for _, a := range []int{j, k, (j + 4) % 9, i} {
+							c12Answer(run, c12Ans{Proposal: all[i], Answer: all[a], Follow: true, List: l})
+						}
+					}
 				}
 			}
 		case "ans-axes":
@@ -281,6 +307,21 @@ func c12Answer(run *ev.Run, a c12Ans) {
 	cfg.Suites = []refbmc.Suite{a.Proposal}
 	e := NewEnv(cfg, memtr.Window)
 	e.BMC.Handler = refbmc.Fixed(6, 0x01, 0, []byte{0x20, 0x81, 0x03, 0x15, 0x02, 0xbf, 0x57, 0x01, 0x00, 0x34, 0x12})
+	prefs := []ipmi.CipherSuite{libSuite(a.Proposal)}
+	if len(a.List) > 0 {
+		prefs = nil
+		var recs []refbmc.SuiteRecord
+		for i, su := range stdSuites() {
+			recs = append(recs, refbmc.SuiteRecord{ID: byte(0x20 + i), Auth: su.Auth, Integs: []byte{su.Integ}, Confs: []byte{su.Conf}})
+		}
+		for _, i := range a.List {
+			prefs = append(prefs, libSuite(stdSuites()[i]))
+		}
+		cfg.Suites = stdSuites()
+		e.BMC.Cfg.Suites = stdSuites()
+		server := &refbmc.CipherSuiteServer{Channel: 1, Data: refbmc.EncodeSuiteRecords(recs)}
+		e.BMC.Handler = refbmc.Chain(server.Handle, refbmc.Fixed(6, 0x01, 0, []byte{0x20, 0x81, 0x03, 0x15, 0x02, 0xbf, 0x57, 0x01, 0x00, 0x34, 0x12}))
+	}
 	e.Filter = func(n int, req, reply []byte) ([]byte, error) {
 		if len(req) > 5 && req[5]&0x3f == 0x10 && len(reply) == 52 && reply[17] == 0 {
 			m := append([]byte(nil), reply...)
@@ -308,7 +349,7 @@ func c12Answer(run *ev.Run, a c12Ans) {
 	pv, st := safe(func() {
 		sess, err = e.ST.NewV2Session(ctx, &bmc.V2SessionOpts{
 			SessionOpts:  bmc.SessionOpts{Username: cfg.Username, Password: cfg.Password, MaxPrivilegeLevel: ipmi.PrivilegeLevelAdministrator},
-			CipherSuites: []ipmi.CipherSuite{libSuite(a.Proposal)},
+			CipherSuites: prefs,
 		})
 		if err == nil && sess != nil {
 			// a returned session must at least not blow up on first use
@@ -317,8 +358,8 @@ func c12Answer(run *ev.Run, a c12Ans) {
 			sess.GetDeviceID(c2)
 		}
 	})
-	desc := fmt.Sprintf("proposal %v answered %v (bmc follows: %v)", a.Proposal, a.Answer, a.Follow)
-	run.Nontrivial(fmt.Sprintf("ans %v %v %v", a.Proposal, a.Answer, a.Follow))
+	desc := fmt.Sprintf("proposal %v (caller's list %v) answered %v (bmc follows: %v)", a.Proposal, a.List, a.Answer, a.Follow)
+	run.Nontrivial(fmt.Sprintf("ans %v %v %v %v", a.Proposal, a.Answer, a.Follow, a.List))
 	run.Event("handshakes", 1)
 	if pv != nil {
 		run.Violation("C12:panic:"+panicSite(st), fmt.Sprintf("%s: panic %v\n%s", desc, pv, trimStack(st)), cs, nil)
@@ -332,7 +373,13 @@ func c12Answer(run *ev.Run, a c12Ans) {
 	}
 	if err == nil {
 		kind := "other"
+		for _, i := range a.List {
+			if stdSuites()[i] == a.Answer {
+				kind = "another-listed-suite"
+			}
+		}
 		switch {
+		case kind != "other":
 		case a.Answer.Integ == 0 || a.Answer.Conf == 0:
 			kind = "none"
 		case refbmc.HashFor(a.Answer.Auth) != nil:
